@@ -249,3 +249,73 @@ pub fn has_const(f: &F) -> bool {
 pub fn uses_not(f: &F) -> bool {
     f.has_op_un(Un::Not)
 }
+
+/// Precedence level of the top operator (weakest first), following the documented grammar.
+fn level(f: &F) -> u8 {
+    use crate::formulas::Bi;
+    match f {
+        F::Hy(..) => 0,
+        F::Bin(Bi::Iff, ..) => 1,
+        F::Bin(Bi::Imp, ..) => 2,
+        F::Bin(Bi::Or, ..) => 3,
+        F::Bin(Bi::Xor, ..) => 4,
+        F::Bin(Bi::And, ..) => 5,
+        F::Bin(..) => 6,
+        F::Un(..) => 7,
+        _ => 8,
+    }
+}
+
+/// Rendering with as few parentheses as the grammar allows (all binary operators are
+/// right-associative; a hybrid operator may only start a formula or a parenthesised group and its
+/// body extends to the end of that group). `keep` lists pre-order node indices that keep their
+/// canonical outer parentheses anyway.
+pub fn render_minimal(f: &F, names: &Names, keep: &[usize]) -> String {
+    fn go(f: &F, names: &Names, scope: &mut Vec<String>, node: &mut usize, keep: &[usize], need: bool, out: &mut String) {
+        let my = *node;
+        *node += 1;
+        let paren = (need || keep.contains(&my)) && level(f) < 8;
+        if paren {
+            out.push('(');
+        }
+        match f {
+            F::Const(true) => out.push_str("True"),
+            F::Const(false) => out.push_str("False"),
+            F::Prop(i) => out.push_str(&names.props[*i as usize]),
+            F::Wild(i) => out.push_str(&format!("%{}%", names.wilds[*i as usize])),
+            F::Var(i) => out.push_str(&format!("{{{}}}", scope[*i as usize])),
+            F::Un(o, c) => {
+                out.push_str(o.s());
+                out.push(' ');
+                go(c, names, scope, node, keep, level(c) < 7, out);
+            }
+            F::Bin(o, l, r) => {
+                let lv = level(f);
+                go(l, names, scope, node, keep, level(l) <= lv, out);
+                out.push_str(&format!(" {} ", o.s()));
+                go(r, names, scope, node, keep, level(r) < lv, out);
+            }
+            F::Hy(o, v, d, c) => {
+                if *o == Hy::Jump {
+                    out.push_str(&format!("@{{{}}}: ", scope[*v as usize]));
+                    go(c, names, scope, node, keep, false, out);
+                } else {
+                    let name = names.vars[*v as usize].clone();
+                    match d {
+                        Some(d) => out.push_str(&format!("{}{{{}}} in %{}%: ", o.s(), name, names.doms[*d as usize])),
+                        None => out.push_str(&format!("{}{{{}}}: ", o.s(), name)),
+                    }
+                    scope.push(name);
+                    go(c, names, scope, node, keep, false, out);
+                    scope.pop();
+                }
+            }
+        }
+        if paren {
+            out.push(')');
+        }
+    }
+    let mut out = String::new();
+    go(f, names, &mut vec![], &mut 0, keep, false, &mut out);
+    out
+}
